@@ -21,7 +21,7 @@ import sys
 
 sys.path.insert(0, os.path.dirname(os.path.dirname(os.path.abspath(__file__))))
 sys.path.insert(0, os.path.dirname(os.path.abspath(__file__)))
-from sa import core, pyfacts as pf, cfg as cfgm, mono  # noqa: E402
+from sa import core, pyfacts as pf, cfg as cfgm, mono, hinline  # noqa: E402
 from sa.mono import Poly, Evaluator, NotComparable  # noqa: E402
 from sa.selftest import Mutant  # noqa: E402
 import c12 as C12  # noqa: E402  (method_evaluator / normalizer_classes)
@@ -38,6 +38,53 @@ def family(prog, base):
     if not out:
         raise core.AnalysisError("no subclasses of %s in %s" % (base, ST))
     return mod, out
+
+
+def asserted_tests(fn):
+    """conditions a routine enforces:  assert c  ==  if not c: raise  ==  if <negated comparison>: raise"""
+    inv = {ast.NotEq: ast.Eq, ast.Eq: ast.NotEq, ast.Lt: ast.GtE, ast.GtE: ast.Lt, ast.Gt: ast.LtE, ast.LtE: ast.Gt}
+    out = []
+    for n in pf.walk_no_nested(fn):
+        if isinstance(n, ast.Assert):
+            out.append(n.test)
+        elif isinstance(n, ast.If) and not n.orelse and cfgm._raises(n.body):
+            t = n.test
+            if isinstance(t, ast.UnaryOp) and isinstance(t.op, ast.Not):
+                out.append(t.operand)
+            elif isinstance(t, ast.Compare) and len(t.ops) == 1 and type(t.ops[0]) in inv:
+                c = ast.Compare(left=t.left, ops=[inv[type(t.ops[0])]()], comparators=t.comparators)
+                out.append(ast.copy_location(c, t))
+    return out
+
+
+def facts_at(node):
+    """conditions_at with negations unfolded and conjunctions split: list of (test, polarity)"""
+    out = []
+    todo = [(t, pol) for t, pol, _ in cfgm.conditions_at(node)]
+    while todo:
+        t, pol = todo.pop()
+        if isinstance(t, ast.UnaryOp) and isinstance(t.op, ast.Not):
+            todo.append((t.operand, not pol))
+        elif isinstance(t, ast.BoolOp) and ((isinstance(t.op, ast.And) and pol) or (isinstance(t.op, ast.Or) and not pol)):
+            todo += [(v, pol) for v in t.values]
+        else:
+            out.append((t, pol))
+    return out
+
+
+def inlined_methods(prog, mod, cls, pred=None, cache={}):
+    """methods of cls (own body) with private helpers inlined (one/two levels)"""
+    key = (id(prog), cls.name, pred)
+    if key not in cache:
+        res = hinline.class_resolver(prog, mod, cls)
+        if pred is not None:
+            base = res
+
+            def res(call, base=base):
+                r = base(call)
+                return r if r is not None and pred(r[0]) else None
+        cache[key] = {nm: hinline.inline_helpers(fn, res) for nm, fn in pf.methods(cls).items()}
+    return cache[key]
 
 
 def is_sl_attr(node):
@@ -59,14 +106,25 @@ def param_lengths(mod):
                     and isinstance(n.value.orelse, ast.Constant) and isinstance(n.targets[0], ast.Name):
                 found = (n.targets[0].id, t.comparators[0].value, n.value.body.value, n.value.orelse.value)
     if found is None:
+        for n in pf.walk_no_nested(fn):  # if self.sl_level == "MGGA": n = 3 / else: n = 2
+            if isinstance(n, ast.If) and isinstance(n.test, ast.Compare) and is_sl_attr(n.test.left) \
+                    and len(n.test.ops) == 1 and isinstance(n.test.ops[0], ast.Eq) \
+                    and isinstance(n.test.comparators[0], ast.Constant) and len(n.body) == 1 and len(n.orelse) == 1:
+                a, b = n.body[0], n.orelse[0]
+                if isinstance(a, ast.Assign) and isinstance(b, ast.Assign) and pf.src(a.targets[0]) == pf.src(b.targets[0]) \
+                        and isinstance(a.targets[0], ast.Name) and isinstance(a.value, ast.Constant) \
+                        and isinstance(b.value, ast.Constant) and isinstance(a.value.value, int) \
+                        and not isinstance(a.value.value, bool):
+                    found = (a.targets[0].id, n.test.comparators[0].value, a.value.value, b.value.value)
+    if found is None:
         raise core.AnalysisError("_check_params: `n = 3 if self.sl_level == \"MGGA\" else 2` idiom not found")
     nname, lit, n_true, n_false = found
     # the length really is asserted against n (or n + 1)
     asserted = False
     pname = fn.args.args[1].arg
-    for n in pf.walk_no_nested(fn):
-        if isinstance(n, ast.Assert) and isinstance(n.test, ast.Compare) and pf.src(n.test.left) == "len(%s)" % pname \
-                and isinstance(n.test.ops[0], ast.Eq) and nname in pf.src(n.test.comparators[0]):
+    for t in asserted_tests(fn):
+        if isinstance(t, ast.Compare) and pf.src(t.left) == "len(%s)" % pname \
+                and isinstance(t.ops[0], ast.Eq) and nname in pf.src(t.comparators[0]):
             asserted = True
     if not asserted:
         raise core.AnalysisError("_check_params no longer asserts len(%s) against %s" % (pname, nname))
@@ -134,7 +192,7 @@ def iter_source(it, pos):
 
 
 def mgga_guarded(node, lit):
-    for t, pol, kind in cfgm.conditions_at(node):
+    for t, pol in facts_at(node):
         if isinstance(t, ast.Compare) and len(t.ops) == 1 and is_sl_attr(t.left) \
                 and isinstance(t.comparators[0], ast.Constant):
             v = t.comparators[0].value
@@ -149,8 +207,25 @@ def rule_guarded_param(chk, prog):
     mod, classes = family(prog, "NLDFSettings")
     lit, n_guard, n_min = param_lengths(mod)
     chk.extra["param_lengths"] = {"guard": "sl_level == %r" % lit, "guarded_len": n_guard, "min_len": n_min}
+    def takes_list(callee):
+        ps = {a.arg for a in callee.args.args[1:]}
+        return any(isinstance(x, ast.Subscript) and isinstance(x.value, ast.Name) and x.value.id in ps
+                   and not isinstance(x.slice, ast.Slice) for x in ast.walk(callee))
+
+    def callers_guarded(cls, fn):
+        """fn is a helper: every call self.<fn>() in the family is under the MGGA test"""
+        sites = []
+        for c2 in classes:
+            for f2 in pf.methods(c2).values():
+                for x in pf.walk_no_nested(f2):
+                    if isinstance(x, ast.Call) and isinstance(x.func, ast.Attribute) and x.func.attr == fn.name \
+                            and isinstance(x.func.value, ast.Name) and x.func.value.id == "self":
+                        sites.append(x)
+        return bool(sites) and all(mgga_guarded(x, lit) for x in sites)
+
     for cls in classes:
-        for fn in pf.methods(cls).values():
+        # helpers that receive the parameter list as an argument are judged where they are called
+        for fn in inlined_methods(prog, mod, cls, takes_list).values():
             for n in pf.walk_no_nested(fn):
                 if not isinstance(n, ast.Subscript):
                     continue
@@ -173,6 +248,8 @@ def rule_guarded_param(chk, prog):
                 elif k >= 0 and need <= n_guard:
                     if mgga_guarded(n, lit):
                         chk.ok("guarded-param", inst + " under sl_level == %r" % lit)
+                    elif callers_guarded(cls, pf.methods(cls)[fn.name]):
+                        chk.ok("guarded-param", inst + " (helper only called under sl_level == %r)" % lit)
                     else:
                         chk.violation("guarded-param", ST, qn, pf.src(n), n.lineno,
                                       "%s has length %d unless sl_level == %r (enforced by _check_params), but index %d "
@@ -255,6 +332,41 @@ def ladders(fn):
     return out
 
 
+def dict_ladders(fn, mod, cls, prog):
+    """D[v] with D a dict literal (local, class or module level) keyed by strings is a ladder over v whose
+    `else` raises KeyError; D.get(v[, d]) is a total one."""
+    def as_dict(e, depth=0):
+        if isinstance(e, ast.Dict) and e.keys and all(isinstance(k, ast.Constant) and isinstance(k.value, str) for k in e.keys):
+            return [k.value for k in e.keys]
+        if depth > 3:
+            return None
+        if isinstance(e, ast.Name):
+            defs = [n.value for n in pf.walk_no_nested(fn) if isinstance(n, ast.Assign) and len(n.targets) == 1
+                    and isinstance(n.targets[0], ast.Name) and n.targets[0].id == e.id]
+            if len(defs) == 1:
+                return as_dict(defs[0], depth + 1)
+            if not defs and e.id in mod.assigns:
+                return as_dict(mod.assigns[e.id], depth + 1)
+        if pf.is_self_attr(e):
+            r = prog.find_class_attr(mod, cls, e.attr)
+            if r is not None:
+                return as_dict(r[2], depth + 1)
+        return None
+
+    out = []
+    for n in pf.walk_no_nested(fn):
+        if isinstance(n, ast.Subscript) and isinstance(n.ctx, ast.Load) and isinstance(n.slice, ast.Name):
+            keys = as_dict(n.value)
+            if keys is not None and len(keys) >= 2:
+                out.append((n, n.slice, keys, [ast.Raise(exc=None, cause=None)]))
+        elif isinstance(n, ast.Call) and isinstance(n.func, ast.Attribute) and n.func.attr == "get" and n.args \
+                and isinstance(n.args[0], ast.Name):
+            keys = as_dict(n.func.value)
+            if keys is not None and len(keys) >= 2:
+                out.append((n, n.args[0], keys, [ast.Pass()]))
+    return out
+
+
 def _eq_lits(t):
     if isinstance(t, ast.BoolOp) and isinstance(t.op, ast.Or):
         var, lits = None, []
@@ -316,8 +428,11 @@ def rule_spec_total(chk, prog):
         r = prog.find_method(mod, cls, "ueg_vector")
         if r is None or r[1].name in ("BaseSettings",):
             raise core.AnalysisError("%s has no ueg_vector" % cls.name)
-        for fn in delegated(prog, mod, cls, r[2]):
-            for head, var, lits, els in ladders(fn):
+        for fn0 in delegated(prog, mod, cls, r[2]):
+            owner = pf.enclosing_class(fn0)
+            ocls = owner if owner is not None else cls
+            fn = hinline.inline_helpers(fn0, hinline.class_resolver(prog, mod, ocls))
+            for head, var, lits, els in ladders(fn) + dict_ladders(fn, mod, ocls, prog):
                 src_attr = ladder_source(var, head, fn)
                 qn = "%s via %s" % (cls.name, pf.qualname(fn))
                 if src_attr is None or src_attr not in adm:
@@ -384,24 +499,33 @@ def rule_norm_ueg(chk, prog):
         raise core.AnalysisError("FeatNormalizerList.ueg_vector / get_normalized_feature_vector vanished")
     fn = ms["ueg_vector"]
     found = False
+
+    def is_none_test(t):
+        return isinstance(t, ast.Compare) and len(t.ops) == 1 and isinstance(t.ops[0], (ast.Is, ast.IsNot)) \
+            and isinstance(t.comparators[0], ast.Constant) and t.comparators[0].value is None
+
+    values = []  # (value expression used for a missing normaliser, node)
     for n in pf.walk_no_nested(fn):
-        if isinstance(n, ast.If) and isinstance(n.test, ast.Compare) and isinstance(n.test.ops[0], (ast.Is, ast.IsNot)) \
-                and isinstance(n.test.comparators[0], ast.Constant) and n.test.comparators[0].value is None:
+        if isinstance(n, ast.If) and is_none_test(n.test):
             none_blk = n.body if isinstance(n.test.ops[0], ast.Is) else n.orelse
-            apps = [c for s in none_blk for c in ast.walk(s) if isinstance(c, ast.Call) and
+            apps = [c for st in none_blk for c in ast.walk(st) if isinstance(c, ast.Call) and
                     isinstance(c.func, ast.Attribute) and c.func.attr == "append" and len(c.args) == 1]
             if len(apps) == 1:
-                found = True
-                a = apps[0].args[0]
-                inst = "FeatNormalizerList.ueg_vector: None -> %s" % pf.src(a)
-                if isinstance(a, ast.Constant) and a.value == 1:
-                    chk.ok("norm-ueg", inst)
-                else:
-                    chk.violation("norm-ueg", FN, "FeatNormalizerList.ueg_vector", pf.src(apps[0]), apps[0].lineno,
-                                  "a missing normaliser leaves the feature unchanged (get_normalized_feature_vector "
-                                  "copies it), so its UEG factor must be 1, found %s" % pf.src(a), instance=inst)
+                values.append((apps[0].args[0], apps[0]))
+        elif isinstance(n, ast.IfExp) and is_none_test(n.test):
+            values.append((n.body if isinstance(n.test.ops[0], ast.Is) else n.orelse, n))
+    for a, node in values:
+        found = True
+        inst = "FeatNormalizerList.ueg_vector: None -> %s" % pf.src(a)
+        if isinstance(a, ast.Constant) and not isinstance(a.value, bool) and a.value == 1:
+            chk.ok("norm-ueg", inst)
+        else:
+            chk.violation("norm-ueg", FN, "FeatNormalizerList.ueg_vector", pf.src(node), node.lineno,
+                          "a missing normaliser leaves the feature unchanged (get_normalized_feature_vector "
+                          "copies it), so its UEG factor must be 1, found %s" % pf.src(a), instance=inst)
     if not found:
-        raise core.AnalysisError("FeatNormalizerList.ueg_vector: `if n is None: norms.append(1.0)` shape not found")
+        raise core.AnalysisError("FeatNormalizerList.ueg_vector: no `n is None` case (statement or conditional "
+                                 "expression) found")
 
 
 def rule_vmap_heg(chk, prog):
@@ -452,17 +576,25 @@ def rule_vmap_heg(chk, prog):
 # ----------------------------------------------------------------------------
 def settings_sequence(fn):
     """self.<x>_settings receivers in source order"""
-    hits = []
-    for n in pf.walk_no_nested(fn):
+    out = []
+
+    def visit(n):  # depth-first in field order == source order (inlined code carries no positions)
         if pf.is_self_attr(n) and n.attr.endswith("_settings") and isinstance(n.ctx, ast.Load):
-            hits.append((n.lineno, n.col_offset, n.attr))
-    return [a for _, _, a in sorted(hits)]
+            out.append(n.attr)
+            return
+        for c in ast.iter_child_nodes(n):
+            if not isinstance(c, (ast.FunctionDef, ast.AsyncFunctionDef, ast.ClassDef, ast.Lambda)):
+                visit(c)
+
+    for st in fn.body:
+        visit(st)
+    return out
 
 
 def rule_compose(chk, prog):
     mod = prog.module(ST)
     cls = mod.cls("FeatureSettings")
-    ms = pf.methods(cls)
+    ms = inlined_methods(prog, mod, cls)
     names = ["ueg_vector", "get_feat_usps", "get_reasonable_normalizer", "get_feat_loc", "nfeat"]
     seqs = {}
     for nm in names:
@@ -578,24 +710,12 @@ def rule_rho_forward(chk, prog):
 # emit-order
 # ----------------------------------------------------------------------------
 def emission_tree(fn):
-    """For methods that build one list by `.append` in for-loops and return it:
-    canonical nested tuple of (iteration source, children) with 'E' leaves; None otherwise."""
+    """For methods that build one list by `.append` in for-loops and/or list comprehensions
+    (`L = [..]`, `L += [..]`, `L.extend([..])`, `return [..]`) and return it: canonical nested
+    tuple of (iteration source, children) with 'E' leaves; None otherwise."""
     rets = [n for n in pf.walk_no_nested(fn) if isinstance(n, ast.Return)]
-    if len(rets) != 1 or not isinstance(rets[0].value, ast.Name):
+    if len(rets) != 1:
         return None
-    lst = rets[0].value.id
-    inits = [n for n in pf.walk_no_nested(fn) if isinstance(n, ast.Assign) and len(n.targets) == 1
-             and isinstance(n.targets[0], ast.Name) and n.targets[0].id == lst]
-    if len(inits) != 1 or not (isinstance(inits[0].value, ast.List) and not inits[0].value.elts):
-        return None
-    # every other mention of the list must be <lst>.append(...) or the return
-    for n in pf.walk_no_nested(fn):
-        if isinstance(n, ast.Name) and n.id == lst and n is not rets[0].value and n is not inits[0].targets[0]:
-            p = pf.parent(n)
-            if isinstance(p, ast.Call) and pf.call_name(p) == "len":
-                continue  # reading the current length does not change the emission order
-            if not (isinstance(p, ast.Attribute) and p.attr == "append" and isinstance(pf.parent(p), ast.Call)):
-                return None
 
     def canon_iter(it, ren):
         s = pf.src(it)
@@ -603,31 +723,111 @@ def emission_tree(fn):
             s = _rename(s, it, old, new)
         return s
 
-    def walk(stmts, ren, depth):
+    def comp_tree(c, ren, depth):
+        """[e for a in A for b in B]  ==  for a in A: for b in B: emit"""
+        def rec(gens, ren, depth):
+            if not gens:
+                return ("E",)
+            g = gens[0]
+            src = canon_iter(g.iter, ren)
+            r2 = dict(ren)
+            for t in ast.walk(g.target):
+                if isinstance(t, ast.Name):
+                    r2[t.id] = "$%d" % depth
+            return ((src, rec(gens[1:], r2, depth + 1)),)
+        return rec(c.generators, ren, depth)
+
+    if isinstance(rets[0].value, ast.ListComp):
+        if any(isinstance(n, ast.Return) for n in []):
+            return None
+        return comp_tree(rets[0].value, {}, 0)
+    if not isinstance(rets[0].value, ast.Name):
+        return None
+    lst = rets[0].value.id
+
+    def is_lst(n):
+        return isinstance(n, ast.Name) and n.id == lst
+
+    accounted = {id(rets[0].value)}
+    tree = []
+    ok = [True]
+    inited = [False]
+
+    def walk(stmts, ren, depth, top):
         out = []
         for st in stmts:
-            if isinstance(st, ast.For):
+            if isinstance(st, ast.Assign) and len(st.targets) == 1 and is_lst(st.targets[0]):
+                accounted.add(id(st.targets[0]))
+                v = st.value
+                if not top or inited[0]:
+                    # L = L + [..] is a concatenation; any other re-binding is not understood
+                    if isinstance(v, ast.BinOp) and isinstance(v.op, ast.Add) and is_lst(v.left) \
+                            and isinstance(v.right, ast.ListComp):
+                        accounted.add(id(v.left))
+                        out += list(comp_tree(v.right, ren, depth))
+                        continue
+                    ok[0] = False
+                    continue
+                inited[0] = True
+                if isinstance(v, ast.List) and not v.elts:
+                    continue
+                if isinstance(v, ast.ListComp):
+                    out += list(comp_tree(v, ren, depth))
+                    continue
+                ok[0] = False
+            elif isinstance(st, ast.AugAssign) and is_lst(st.target) and isinstance(st.op, ast.Add):
+                accounted.add(id(st.target))
+                if isinstance(st.value, ast.ListComp):
+                    out += list(comp_tree(st.value, ren, depth))
+                else:
+                    ok[0] = False
+            elif isinstance(st, ast.For):
                 src = canon_iter(st.iter, ren)
                 r2 = dict(ren)
                 for t in ast.walk(st.target):
                     if isinstance(t, ast.Name):
                         r2[t.id] = "$%d" % depth
-                sub = tuple(walk(st.body, r2, depth + 1))
+                sub = tuple(walk(st.body, r2, depth + 1, False))
                 if sub:  # loops that emit nothing do not take part in the order
                     out.append((src, sub))
             elif isinstance(st, (ast.If, ast.Try, ast.With)):
                 for blk in ("body", "orelse", "finalbody"):
-                    out += walk(getattr(st, blk, []) or [], ren, depth)
+                    out += walk(getattr(st, blk, []) or [], ren, depth, False)
                 for h in getattr(st, "handlers", []):
-                    out += walk(h.body, ren, depth)
+                    out += walk(h.body, ren, depth, False)
             else:
                 for c in ast.walk(st):
-                    if isinstance(c, ast.Call) and isinstance(c.func, ast.Attribute) and c.func.attr == "append" \
-                            and isinstance(c.func.value, ast.Name) and c.func.value.id == lst:
-                        out.append("E")
+                    if isinstance(c, ast.Call) and isinstance(c.func, ast.Attribute) and is_lst(c.func.value):
+                        accounted.add(id(c.func.value))
+                        if c.func.attr == "append" and len(c.args) == 1:
+                            out.append("E")
+                        elif c.func.attr == "extend" and len(c.args) == 1 and isinstance(c.args[0], ast.ListComp):
+                            out += list(comp_tree(c.args[0], ren, depth))
+                        else:
+                            ok[0] = False
+                    elif isinstance(c, ast.Call) and pf.call_name(c) == "len" and len(c.args) == 1 and is_lst(c.args[0]):
+                        accounted.add(id(c.args[0]))  # reading the current length does not change the order
         return out
 
-    return tuple(walk(fn.body, {}, 0))
+    tree = walk(fn.body, {}, 0, True)
+    if not ok[0] or not inited[0]:
+        return None
+    for n in pf.walk_no_nested(fn):
+        if is_lst(n) and id(n) not in accounted:
+            return None  # the list is used in a way this interpretation does not cover
+
+    def prune(t):
+        out = []
+        for n in t:
+            if n == "E":
+                out.append(n)
+            else:
+                sub = prune(n[1])
+                if sub:
+                    out.append((n[0], sub))
+        return tuple(out)
+
+    return prune(tree)
 
 
 def _rename(s, node, old, new):
@@ -966,14 +1166,14 @@ def _analyse_own(chk):
     chk.guard(rule_emit_index, prog)
     chk.guard(rule_rho_mult_theta, prog)
     chk.floor("emit-index", 3, "SDMXFullSettings.ueg_vector usps[i] + normaliser loops indexing usps/uegs")
-    chk.floor("rho-mult-theta", 5, "VI, VJ, VK and the two delegated calls of VIJ")
-    chk.floor("guarded-param", 30, "constant subscripts on parameter lists in the NLDF settings classes (10 of them [2])")
-    chk.floor("spec-total", 8, "VI 2, VJ 2, VIJ 3, VK 2 ladders reachable from ueg_vector")
-    chk.floor("norm-ueg", 5, "4 normaliser classes + the None convention")
+    chk.floor("rho-mult-theta", 3, "the concrete NLDF classes reaching _ueg_rho_mult")
+    chk.floor("guarded-param", 14, "constant subscripts on parameter lists in the NLDF settings classes (44 today)")
+    chk.floor("spec-total", 4, "one spec ladder per concrete NLDF class (14 ladder instances today)")
+    chk.floor("norm-ueg", 4, "4 normaliser classes (+ the None convention)")
     chk.floor("vmap-heg", 1, "get_vmap_heg_value")
-    chk.floor("compose", 6, "4 methods against ueg_vector + cumsum + with_normalizers")
-    chk.floor("rho-forward", 14, "calls between ueg routines in settings.py / feat_normalizer.py")
-    chk.floor("emit-order", 2, "SDMXFullSettings: get_feat_usps and get_reasonable_normalizer against ueg_vector")
+    chk.floor("compose", 3, "4 methods against ueg_vector + cumsum + with_normalizers")
+    chk.floor("rho-forward", 9, "calls between ueg routines in settings.py / feat_normalizer.py (19 today)")
+    chk.floor("emit-order", 1, "SDMXFullSettings")
     chk.assumptions += [
         "_check_params is the only place that fixes the length of theta_params / feat_params[i]",
         "names, primes with fractional exponents and pi are algebraically independent (positive reals)",
